@@ -11,6 +11,7 @@
    start / end are arbitrary N (so also usize::MAX = max_u64); any number of segments, any bytes, any k < 2^32
    (kmer_length is a u32).  lenN c <= isize_max holds of every Vec<u8> the real get_contig can return. *)
 From Ragc Require Import Mach Range Range_proofs.
+From Ragc Require Segment.
 Open Scope N_scope.
 Ltac wf_tac := split; repeat first [apply Forall_nil | apply Forall_cons]; first [reflexivity | discriminate].
 
@@ -82,3 +83,20 @@ Example without_wf_drops :
   reconstruct_contig 3 segs = Ok [0;1;2;3;0] /\
   get_contig_length 3 segs = Ok 7 /\ get_contig_range 3 segs 0 7 = Ok [0;1;2;3].
 Proof. vm_compute. repeat split; reflexivity. Qed.
+
+(* composition with C10: for the segmentation split_at_splitters(_with_size) computes (any contig, any splitter
+   set, 1 <= k <= 32), stored segment by segment as it is, both queries answer with the length / the slices of
+   the contig that was split (tiling + later_len_ge_k give wf and the reconstruction) *)
+Theorem range_on_split : forall ws contig spl k s e, 1 <= k <= 32 -> lenN contig <= isize_max ->
+  let segs := map (fun sg => mkRSeg (lenN (Segment.sdata sg)) false (Segment.sdata sg))
+                  (Segment.split_gen ws contig spl k) in
+  get_contig_length k segs = Ok (lenN contig) /\
+  get_contig_range k segs s e = Ok (firstnN (N.min e (lenN contig) - s) (skipnN s contig)).
+Proof. exact Range_proofs.range_on_split_proof. Qed.
+Print Assumptions range_on_split.
+Example range_on_split_nonvacuous :
+  length (Segment.split_gen true [0;0;0;1;2;3;0;0;0] (Segment.set_of_list [0]) 3) = 3%nat /\
+  get_contig_range 3 (map (fun sg => mkRSeg (lenN (Segment.sdata sg)) false (Segment.sdata sg))
+                          (Segment.split_gen true [0;0;0;1;2;3;0;0;0] (Segment.set_of_list [0]) 3)) 2 8
+  = Ok [0;1;2;3;0;0].
+Proof. vm_compute. split; reflexivity. Qed.
